@@ -400,7 +400,14 @@ def run_design(c: checklib.Check, histories=True):
             c.machinery_failure(f"vacuity: {cfg} did not violate {inv}: {r.summary()}")
     c.note("InotifyPipeline negative (D6 switched back on) and deviation (D7, known finding) configurations violate their "
            "invariants as expected")
-    if histories:
-        for start in ("small", "deep", "empty"):
-            hs, r = tlc_histories(start, 3 if c.thorough else 2)
+    # environment validation (DESIGN §5.6): the kernel half of the model against the real kernel
+    from checks import kernel_validation as kv
+
+    hist = []
+    for start in ("small", "deep", "empty"):
+        hs, r = tlc_histories(start, 3 if c.thorough else 2)
+        if histories:
             c.add_tlc(f"FsGen:{start}", r)
+        step = 3 if c.thorough else 12
+        hist += [(START[start]["start"], START[start]["outside"], h) for h in hs[c.seed % step:: step]]
+    kv.validate(c, hist)
